@@ -54,6 +54,38 @@ CHECKS = {
              "catch). TLC computes the exact expected output and outcome; VM and interpreter must reproduce it.",
         note="Trusted: HmsSem, renderer. 9244 programs x 2 backends in the thorough tier.",
         design="5/C11"),
+    "C10": dict(
+        technique="TLA+ spec of cores/Wait/cancel (HmsCores) model-checked incl. liveness under fairness; cancel at "
+                  "every k-th poll replayed on VM and interpreter; event traces validated against TraceCores",
+        text="TLC proves for the bounded HmsCores model (cancel enabled in every state) the safety properties and "
+             "CancelLeadsToReturn / OffersAreTaken under weak fairness, and refutes them for the protocol of the "
+             "original snapshot. On the code, the context is cancelled at the k-th poll for every k (hook) for loops, "
+             "calls, try/catch, looping handlers, sleeps and spawned cores on both backends: outcome must be a "
+             "termination interrupt (or the program's own), <= 50 instructions per core after the cancel, no core or "
+             "goroutine left; VM event traces must be behaviours of HmsCores.",
+        note="Trusted: hooks at the linearization points (build tag verif), TLC, the bounded model (<= 4 cores).",
+        design="5/C10"),
+    "C16": dict(
+        technique="TLA+ source semantics (HmsSem) as oracle for invocation histories on one VM + TraceCores trace "
+                  "validation of the SpawnSync/Wait protocol after every call",
+        text="All histories of <= 2 (thorough: 3) invocations over 23 (function, argument) choices are executed on ONE "
+             "VM through SpawnSync; HmsSem runs the same calls with persistent globals and fixes each result / "
+             "exception; after every call the core list must be empty and later calls must be answered; recorded "
+             "event traces are validated against TraceCores (LocksReleasedOnReturn, ListEmptyOnReturn, ...).",
+        note="Trusted: HmsSem, the worker's projection of return values.",
+        design="5/C16"),
+    "C17": dict(
+        technique="TLA+ spec of spawn/Wait (HmsCores) model-checked; TLC-chosen schedules replayed on the real VM "
+                  "with hooks as scheduler gates; free-running traces validated against TraceCores; race detector",
+        text="HmsCores is checked exhaustively for <= 3/4 cores (WaitOnlyAfterAllDone, FatalReported, "
+             "NoCoreStranded, LockDiscipline, ...). Random walks of the model are exported as schedules and the real "
+             "goroutines are forced through them (gates in the hooks); free-running executions of programs spawning "
+             "1..8 cores under GOMAXPROCS 1..16 with seeded yields are recorded; every trace must be a behaviour of "
+             "the spec with all invariants holding after every event; outputs must be an interleaving of the per-core "
+             "line sequences; the same programs run under -race.",
+        note="Go scheduler interleavings are sampled, the model is exhaustive; data races are observed by the race "
+             "detector (auxiliary monitor). Known finding: unsynchronised pushes to a list held in a global.",
+        design="5/C17"),
 }
 
 NOT_YET = {}
